@@ -5,7 +5,7 @@ range APIs, Iterator::sum, Instant+Duration) in the node universe must be discha
 plus N1..N4 (error locality, fallible decode, cross-component keys, unknown senders) and service immortality.
 """
 from .. import ir
-from ..analysis import peel_ty, diverges
+from ..analysis import peel_ty, diverges, atoms_of
 from ..common import Env, call_args, callee_paths, key, ordinal_keys
 from ..panics import PanicAnalysis
 from ..wiring import Wiring, MPSC_RECV
@@ -39,7 +39,7 @@ def auth_status(P):
     from ..report import Report
     status = {}
     mods = []
-    for name in ("c03", "c04", "c05", "c07", "c09", "c10", "c12", "c14", "c17", "c19"):
+    for name in ("c03", "c04", "c05", "c07", "c09", "c10", "c12", "c14", "c16", "c17", "c19"):
         try:
             mods.append(__import__("hsrules.props." + name, fromlist=["rules"]))
         except ImportError:
@@ -256,6 +256,27 @@ def n_rules(prog, env, W, R, prefix, tag):
                                 "Option matched (%s)" % (par["k"] if par else "?"),
                                 "address of a network-supplied origin is unwrapped")
     R.floor(prefix + ".N4", n4, 2, "origin lookups in the helpers" + tag)
+
+    # ---------------- N5 every accepted connection is served: the accept loop hands each accepted socket to a runner under no
+    # condition that earlier connections (which any stranger can open and break) could have made false
+    rr = prog.fn("network::receiver::Receiver::<Handler>::run")
+    if R.judge(rr is not None, prefix + ".N5", "anchor Receiver::run" + tag, "", "", "anchor-missing", reason="anchor-missing"):
+        from ..common import inner_cond
+        lp = next((n for n in rr.nodes() if n["k"] in ("loop", "while")), None)
+        sr = [n for n in rr.nodes() if n["k"] in ("call", "mcall") and any(p.endswith("::spawn_runner") for p in callee_paths(n))]
+        R.floor(prefix + ".N5", len(sr), 1, "spawn_runner call in the accept loop" + tag)
+        for n, i in ordinal_keys(sr, lambda x: 0):
+            ok5 = lp is not None and any(x is n for x in ir.walk(lp["body"]))
+            extra = []
+            if ok5:
+                ic = inner_cond(env.flow(rr), n, lp["body"])
+                extra = [a for a in atoms_of(ic) if not a.startswith(("ok(", "some("))]
+            R.judge(ok5 and not extra, prefix + ".N5", key(rr, "every accepted connection gets a runner" + tag, i), n["sp"], "",
+                    "an accepted connection is served only under %s: state that earlier connections can drive (counters, tables) must not be able "
+                    "to make the node stop serving its port" % extra if ok5 else "spawn_runner is not called from the accept loop")
+        exits = [x for x in ir.walk(lp["body"], into_closures=False) if x["k"] in ("break", "ret")] if lp is not None else []
+        R.judge(lp is not None and not exits, prefix + ".N5", key(rr, "accept loop has no exit" + tag), rr.sp, "",
+                "the accept loop can end at %s: the port stops being served" % [x["sp"] for x in exits])
 
 
 def check(P, R, tier):
